@@ -11,9 +11,19 @@ def main(argv=None):
     parser.add_argument("--seed", type=int, default=None)
     parser.add_argument("--replay")
     parser.add_argument("--quiet", action="store_true")
+    parser.add_argument("--batch")
     args = parser.parse_args(argv)
     seed = args.seed if args.seed is not None else int(os.environ.get("VERIF_SEED", "1"))
     from usimdst import runner
+    if args.batch:
+        import json
+        import gc
+        gc.disable()
+        from usimdst.props import C02
+        with open(args.batch) as stream:
+            batch = json.load(stream)
+        print("DIGESTS " + json.dumps(C02.batch_digests(batch)))
+        return 0
     try:
         if args.replay:
             return runner.replay(args.property, args.replay, quiet=args.quiet)
